@@ -246,5 +246,5 @@ func runHistory(c M) M {
 		}
 		steps = append(steps, step)
 	}
-	return M{"steps": steps}
+	return M{"steps": steps, "workdir": work}
 }
